@@ -61,6 +61,8 @@ func verifRecord(cb *CircuitBreaker, id uint32, r string) {
 		cb.RecordResult(id, false, 10*time.Millisecond)
 	case "fail":
 		cb.RecordResult(id, true, 0)
+	case "failslow": // failed and at least as slow as the slow-call threshold (a backend time-out)
+		cb.RecordResult(id, true, 10*time.Millisecond)
 	default:
 		panic("bad result " + r)
 	}
@@ -73,7 +75,7 @@ func TestVerifC08Replay(t *testing.T) {
 	w := vx.NewWriter(t, "VERIF_OUT")
 	defer w.Close()
 	rng := vx.Rand(8)
-	steps, mism := 0, 0
+	steps, mism, freeDiv := 0, 0, 0
 	for bi, beh := range behs {
 		if len(beh) == 0 || vx.Str(beh[0]["a"]) != "init" {
 			t.Fatalf("behaviour %d does not start with init", bi)
@@ -85,6 +87,7 @@ func TestVerifC08Replay(t *testing.T) {
 		emap := map[uint32]int{} // real stateID -> contract epoch
 		rmap := map[int]uint32{}
 		bad := ""
+	replay:
 		for si, st := range beh[1:] {
 			steps++
 			switch vx.Str(st["a"]) {
@@ -116,7 +119,12 @@ func TestVerifC08Replay(t *testing.T) {
 				id := pend[i]
 				pend = append(pend[:i:i], pend[i+1:]...)
 				verifRecord(cb, id, vx.Str(st["r"]))
-				if got := verifStateNames[cb.State()]; got != vx.Str(st["st"]) {
+				if got := verifStateNames[cb.State()]; got != vx.Str(st["st"]) && vx.Bool(st["free"]) && got == vx.Str(st["alt"]) {
+					// the contract leaves this step open and TLC took the other branch: the rest of the
+					// behaviour does not apply to this breaker
+					freeDiv++
+					break replay
+				} else if got != vx.Str(st["st"]) {
 					bad = fmt.Sprintf("state after record(%s) %s, contract says %s", vx.Str(st["r"]), got, vx.Str(st["st"]))
 				}
 			}
@@ -128,7 +136,7 @@ func TestVerifC08Replay(t *testing.T) {
 			}
 		}
 	}
-	w.Raw(vx.M{"k": "summary", "behaviours": len(behs), "steps": steps, "mismatches": mism})
+	w.Raw(vx.M{"k": "summary", "behaviours": len(behs), "steps": steps, "mismatches": mism, "free_diverged": freeDiv})
 }
 
 type verifRandPolicy struct {
@@ -166,6 +174,7 @@ func TestVerifC08Trace(t *testing.T) {
 		w.Emit(vx.M{"ev": "reset", "pol": pol})
 		var pend []uint32
 		failBias := rng.Intn(100)
+		slowFails := rng.Intn(4) // 0: failed calls are all fast; n: one failed call in n is slow as well
 		for s := 0; s < nSteps; s++ {
 			x := rng.Intn(100)
 			switch {
@@ -189,6 +198,9 @@ func TestVerifC08Trace(t *testing.T) {
 				r := "ok"
 				if y := rng.Intn(100); y < failBias {
 					r = "fail"
+					if slowFails > 0 && rng.Intn(slowFails) == 0 {
+						r = "failslow"
+					}
 				} else if y < failBias+20 {
 					r = "slow"
 				}
@@ -232,7 +244,7 @@ func TestVerifC08Conc(t *testing.T) {
 						if !ok {
 							continue
 						}
-						res := []string{"ok", "fail", "fail", "slow"}[lr.Intn(4)]
+						res := []string{"ok", "fail", "fail", "slow", "failslow", "failslow"}[lr.Intn(6)]
 						w.Emit(vx.M{"ev": "inv", "p": p, "op": "rec", "r": res})
 						verifRecord(cb, id, res)
 						w.Emit(vx.M{"ev": "ret", "p": p, "op": "rec"})
